@@ -302,3 +302,7 @@ package pilosa
 //@   requires c != nil
 //@   ensures result == c.state
 //@   modifies nothing
+
+// ---- C17: MinRow / MaxRow reducers (closures of executeMinRow / executeMaxRow) ---------
+//@ contract (*executor).executeMinRow$2 props C17
+//@   ensures true
